@@ -250,7 +250,7 @@ fn on_disk(t: i32, word: &[u8], sa: &Shape, sb: &Shape, dir: &str, case: &str, r
 }
 
 pub fn run(ctx: &Ctx) -> Report {
-    let max_len = if cfg!(miri) { 3 } else { ctx.pick(6, 8) };
+    let max_len = if cfg!(miri) { 3 } else { ctx.pick(6, 9) };
     let words = all_words(max_len);
     let dir = format!("{}/files", ctx.out);
     if !cfg!(miri) {
